@@ -494,6 +494,8 @@ pub struct RefErr {
 
 #[derive(Debug, Clone)]
 pub struct RefOk {
+    /// The component binary before `-t` turns it into text (None for parse / targets).
+    pub binary: Option<Vec<u8>>,
     /// What goes to stdout / the output file.
     pub bytes: Vec<u8>,
     /// Whether stdout gets a trailing newline after the bytes.
@@ -546,6 +548,7 @@ fn ref_compose(root: &Path, c: &ComposeCase) -> Result<RefOk, RefErr> {
             stage: "encoding",
             needle: e.to_string(),
         })?;
+    let binary = bytes.clone();
     if c.wat {
         bytes = wasmprinter::print_bytes(&bytes)
             .map_err(|_| RefErr {
@@ -555,6 +558,7 @@ fn ref_compose(root: &Path, c: &ComposeCase) -> Result<RefOk, RefErr> {
             .into_bytes();
     }
     Ok(RefOk {
+        binary: Some(binary),
         bytes,
         newline_on_stdout: c.wat,
     })
@@ -620,6 +624,7 @@ fn ref_plug(root: &Path, p: &PlugCase) -> (Result<RefOk, RefErr>, bool) {
             stage: "encoding",
             needle: e.to_string(),
         })?;
+        let binary = bytes.clone();
         if p.wat {
             bytes = wasmprinter::print_bytes(&bytes)
                 .map_err(|_| RefErr {
@@ -629,6 +634,7 @@ fn ref_plug(root: &Path, p: &PlugCase) -> (Result<RefOk, RefErr>, bool) {
                 .into_bytes();
         }
         Ok(RefOk {
+            binary: Some(binary),
             bytes,
             newline_on_stdout: p.wat,
         })
@@ -651,6 +657,7 @@ fn ref_parse(root: &Path, src: &str) -> Result<RefOk, RefErr> {
     })?;
     bytes.push(b'\n');
     Ok(RefOk {
+        binary: None,
         bytes,
         newline_on_stdout: false,
     })
@@ -701,6 +708,7 @@ fn ref_targets(root: &Path, t: &TargetsCase) -> Result<RefOk, RefErr> {
     };
     wac_types::validate_target(&types, *w, component.ty()).map_err(|e| fail("verdict", e.to_string()))?;
     Ok(RefOk {
+        binary: None,
         bytes: Vec::new(),
         newline_on_stdout: false,
     })
@@ -733,6 +741,57 @@ pub fn reference(root: &Path, cmd: &Cmd) -> Reference {
             bytes_comparable: true,
         },
     }
+}
+
+/// Top-level imports, exports, instantiations (component index + argument names and kinds)
+/// and aliases of a component, in order.
+fn component_shape(bytes: &[u8]) -> Vec<String> {
+    use wasmparser::{ComponentInstance, Parser, Payload};
+    let mut out = Vec::new();
+    let mut depth = 0i32;
+    for payload in Parser::new(0).parse_all(bytes) {
+        let Ok(payload) = payload else {
+            out.push("<parse error>".to_string());
+            break;
+        };
+        match payload {
+            Payload::ModuleSection { .. } | Payload::ComponentSection { .. } => depth += 1,
+            Payload::End(_) => depth -= 1,
+            Payload::ComponentImportSection(s) if depth == 0 => {
+                for i in s.into_iter().flatten() {
+                    out.push(format!("import {} {:?}", i.name.0, std::mem::discriminant(&i.ty)));
+                }
+            }
+            Payload::ComponentExportSection(s) if depth == 0 => {
+                for e in s.into_iter().flatten() {
+                    out.push(format!("export {} {:?} {}", e.name.0, e.kind, e.index));
+                }
+            }
+            Payload::ComponentInstanceSection(s) if depth == 0 => {
+                for i in s.into_iter().flatten() {
+                    match i {
+                        ComponentInstance::Instantiate { component_index, args } => {
+                            let args: Vec<String> = args
+                                .iter()
+                                .map(|a| format!("{}={:?}:{}", a.name, a.kind, a.index))
+                                .collect();
+                            out.push(format!("instantiate {component_index} [{}]", args.join(", ")));
+                        }
+                        ComponentInstance::FromExports(ex) => {
+                            out.push(format!("instance-from-exports {}", ex.len()));
+                        }
+                    }
+                }
+            }
+            Payload::ComponentAliasSection(s) if depth == 0 => {
+                for a in s.into_iter().flatten() {
+                    out.push(format!("alias {a:?}"));
+                }
+            }
+            _ => {}
+        }
+    }
+    out
 }
 
 fn snapshot_output(root: &Path, out: Option<&String>) -> Option<Vec<u8>> {
@@ -932,11 +991,21 @@ pub fn run(run: &mut Run) {
                                     format!("`{inv}`: the printed text assembles to an invalid component"),
                                 );
                             }
-                            if let Ok(again) = wasmprinter::print_bytes(&bin) {
-                                if again.trim_end() != text.trim_end() {
+                            // identical interface and wiring: top-level imports, exports,
+                            // instantiations (with argument names) and aliases of the assembled
+                            // text equal those of the binary the library produced
+                            if let Some(reference_binary) = &ok.binary {
+                                let a = component_shape(&bin);
+                                let b = component_shape(reference_binary);
+                                if a != b {
+                                    let at = a.iter().zip(b.iter()).position(|(x, y)| x != y).unwrap_or(a.len().min(b.len()));
                                     run.violate(
                                         "text-mismatch",
-                                        format!("`{inv}`: the printed text does not print back to itself after assembling"),
+                                        format!(
+                                            "`{inv}`: the printed text assembles to a component whose interface / wiring differs from the library's binary at item {at}: `{}` vs `{}`",
+                                            a.get(at).cloned().unwrap_or_default(),
+                                            b.get(at).cloned().unwrap_or_default()
+                                        ),
                                     );
                                 }
                             }
